@@ -49,6 +49,8 @@ enum Fate {
     Cancel(usize),
     /// the writer succeeds; its rename is made to fail from outside (strace error injection)
     RFail,
+    /// solo children only: the creating future is dropped by the child itself after k chunks
+    Drop(usize),
 }
 
 impl Fate {
@@ -60,6 +62,7 @@ impl Fate {
             "kill" => Fate::Kill(k),
             "cancel" => Fate::Cancel(k),
             "rfail" => Fate::RFail,
+            "drop" => Fate::Drop(k),
             _ => Fate::Ok,
         }
     }
@@ -70,6 +73,7 @@ impl Fate {
             Fate::Kill(k) => format!("kill@{k}"),
             Fate::Cancel(k) => format!("cancel@{k}"),
             Fate::RFail => "rfail".into(),
+            Fate::Drop(k) => format!("drop@{k}"),
         }
     }
 }
@@ -708,8 +712,10 @@ fn child_main(args: &[String]) -> ! {
     let rt = tokio::runtime::Builder::new_current_thread().enable_all().build().unwrap();
     let dest_owned = dest.clone();
     let dest2: &Path = &dest_owned;
+    let drop_me = Arc::new(tokio::sync::Notify::new());
+    let drop_me2 = drop_me.clone();
     let r = rt.block_on(async {
-        create_file_cleanly(
+        let fut = create_file_cleanly(
             &dest,
             |mut file: std::fs::File| async move {
                 let (idx, fate, chunks, is_gate) = if let Some(rest) = mode.strip_prefix("solo:") {
@@ -728,6 +734,11 @@ fn child_main(args: &[String]) -> ! {
                         Fate::Fail(f) if k >= f.min(chunks) => {
                             say(&format!("LEAVE 0 {}", now_ns()));
                             return Err(CbErr("injected write failure".into()));
+                        }
+                        Fate::Drop(f) if k >= f.min(chunks) => {
+                            // ask the main task to drop this future; never resumes
+                            drop_me2.notify_one();
+                            std::future::pending::<()>().await;
                         }
                         Fate::Kill(f) | Fate::Cancel(f) if k >= f.min(chunks) => {
                             say(&format!("PARKED {}", std::process::id()));
@@ -759,9 +770,16 @@ fn child_main(args: &[String]) -> ! {
                 say(&format!("SAW {}", if matches!(c, Class::Complete(_)) { "ok" } else { "bad" }));
                 Ok::<Made, CbErr>(Made::Existing)
             },
-        )
-        .await
+        );
+        tokio::select! {
+            r = fut => Some(r),
+            _ = drop_me.notified() => None,
+        }
     });
+    let Some(r) = r else {
+        say("RESULT cancelled");
+        std::process::exit(0);
+    };
     match r {
         Ok(m) => {
             let c = read_class(dest2, seed);
@@ -1100,6 +1118,7 @@ fn solo_child(dest: &Path, seed: u64, id: u64, chunks: usize, fate: &str, trace_
             return match w.get(1).copied() {
                 Some("created") => Outcome::Created,
                 Some("existing") => Outcome::Existing,
+                Some("cancelled") => Outcome::Cancelled,
                 _ => Outcome::Err(w.get(2).unwrap_or(&"?").to_string()),
             };
         }
@@ -1379,6 +1398,7 @@ fn run_trace(ws: &[&str], stats: &mut Stats) -> Vec<String> {
     let mut fate = "ok".to_string();
     match scenario {
         "writer_error" => fate = format!("fail@{failat}"),
+        "cancelled" => fate = format!("drop@{failat}"),
         "existing" => {
             solo_in_process(&dest, seed, 1, chunks);
         }
@@ -2427,6 +2447,9 @@ impl Prop for C16 {
         for (i, sc) in ["success", "writer_error", "existing", "blocked_existing", "blocked_absent", "rename_error", "part_open_error", "lock_open_error"].iter().enumerate() {
             push(format!("trace-{sc}"), format!("trace {sc} chunks={} failat=1", 2 + i % 2));
         }
+        push("trace-cancelled-1".into(), "trace cancelled chunks=3 failat=1".into());
+        push("trace-cancelled-0".into(), "trace cancelled chunks=2 failat=0".into());
+        push("trace-cancelled-end".into(), "trace cancelled chunks=2 failat=2".into());
         push("trace-writer_error-0".into(), "trace writer_error chunks=3 failat=0".into());
         push("trace-writer_error-end".into(), "trace writer_error chunks=2 failat=2".into());
         // (b) boundary rounds
